@@ -173,8 +173,10 @@ func (fs *ReaderFS) readErr(r io.Reader) error {
 
 // resolvePath converts a tar based path to a rooted FS path
 func resolvePath(p string) string {
+	// strip the leading slashes first: cleaning a rooted path drops ".." elements at its top ("/../x" becomes "/x"),
+	// and an entry that resolves outside the root must keep its ".." to be refused
+	p = strings.TrimLeft(p, "/")
 	p = path.Clean(p)
-	p = strings.TrimPrefix(p, "/")
 	if p == "" {
 		p = "."
 	}
